@@ -223,6 +223,118 @@ StateOf(m) ==
    co |-> [c \in 1..m.nc |-> c],
    err |-> ""]
 
+(************** the skeleton parser's clean-up steps (skeleton.py) **************)
+\* `for e in v.ownEdges: del self.edges[e]` iterates the LIVE list: the destructor removes e from it,
+\* the iterator's index moves on, so every other element is skipped
+RECURSIVE LiveDelEdges(_, _, _)
+LiveDelEdges(s, h, i) ==
+  IF ~OK(s) \/ i > Len(s.V[h].oe) THEN s
+  ELSE LiveDelEdges(DelEdge(s, s.V[h].oe[i]), h, i + 1)
+\* the same loop over a copy of the list (surface_evolver.py), KeyError swallowed
+RECURSIVE CopyDelEdges(_, _, _)
+CopyDelEdges(s, es, i) ==
+  IF i > Len(es) THEN s
+  ELSE CopyDelEdges(IF es[i] \in DOMAIN s.E THEN DelEdge(s, es[i]) ELSE s, es, i + 1)
+
+\* isolated-cell removal: cells all of whose vertices list at most one cell
+RECURSIVE IsoVertices(_, _, _)
+IsoVertices(s, cyc, i) ==
+  IF ~OK(s) \/ i > Len(cyc) THEN s
+  ELSE LET s1 == LiveDelEdges(s, cyc[i], 1)
+           s2 == IF OK(s1) /\ cyc[i] \in s1.vd THEN DelVertex(s1, cyc[i]) ELSE s1     \* KeyError caught
+       IN  IsoVertices(s2, cyc, i + 1)
+RECURSIVE IsoCells(_, _, _, _)
+IsoCells(s, order, i, acc) ==            \* returns [s, acc]: acc = cells_to_remove
+  IF ~OK(s) \/ i > Len(order) THEN [s |-> s, acc |-> acc]
+  ELSE LET c == order[i]  cyc == s.C[c] IN
+       IF \A j \in DOMAIN cyc : Len(s.V[cyc[j]].oc) <= 1
+       THEN IsoCells(IsoVertices(s, cyc, 1), order, i + 1, Append(acc, c))
+       ELSE IsoCells(s, order, i + 1, acc)
+RECURSIVE DelCells(_, _, _)
+DelCells(s, cs, i) == IF ~OK(s) \/ i > Len(cs) THEN s ELSE DelCells(DelCell(s, cs[i]), cs, i + 1)
+IsolatedCellRemoval(s) ==
+  IF ~OK(s) THEN s ELSE LET r == IsoCells(s, s.co, 1, <<>>) IN DelCells(r.s, r.acc, 1)
+
+\* Surface Evolver parser: drop vertices without cells together with their edges
+RECURSIVE OrphanFold(_, _, _)
+OrphanFold(s, hs, i) ==
+  IF ~OK(s) \/ i > Len(hs) THEN s
+  ELSE OrphanFold(DelVertex(CopyDelEdges(s, s.V[hs[i]].oe, 1), hs[i]), hs, i + 1)
+OrphanRemoval(s) ==
+  IF ~OK(s) THEN s
+  ELSE OrphanFold(s, SeqOfSetSorted({h \in s.vd : Len(s.V[h].oc) = 0}), 1)
+
+\* do_t3_transition(artifact): merge the vertices `art` (sequence of handles) into a new vertex at their mean
+RECURSIVE SumPos(_, _, _)
+SumPos(s, art, i) == IF i > Len(art) THEN <<0, 0>>
+                     ELSE LET r == SumPos(s, art, i + 1) IN <<s.V[art[i]].pos[1] + r[1], s.V[art[i]].pos[2] + r[2]>>
+FloorDiv(a, n) == IF a >= 0 THEN a \div n ELSE -((-a + n - 1) \div n)
+RECURSIVE FoldDelEdges(_, _, _)
+FoldDelEdges(s, es, i) == IF ~OK(s) \/ i > Len(es) THEN s ELSE FoldDelEdges(DelEdge(s, es[i]), es, i + 1)
+RECURSIVE T3Vertices(_, _, _, _)
+T3Vertices(s, art, i, hnew) ==
+  IF ~OK(s) \/ i > Len(art) THEN s
+  ELSE LET v     == art[i]
+           ids   == {s.V[art[j]].id : j \in DOMAIN art}
+           inArt(e) == s.V[s.E[e][1]].id \in ids /\ s.V[s.E[e][2]].id \in ids
+           oe    == s.V[v].oe
+           stale == \E j \in DOMAIN oe : oe[j] \notin DOMAIN s.E          \* self.edges[e] -> KeyError
+       IN  IF stale THEN Fail(s, "KeyError") ELSE
+           LET rem == SelectSeq(oe, LAMBDA e : inArt(e))
+               rep == SelectSeq(oe, LAMBDA e : ~inArt(e))
+               s1  == FoldDelEdges(s, rem, 1)
+               s2  == FoldEdgeReplace(s1, rep, 1, v, hnew)
+               s3  == IF OK(s2) THEN FoldCellReplace(s2, s2.V[v].oc, 1, v, hnew) ELSE s2   \* live ownCells: not modified by replace_vertex of v
+           IN  T3Vertices(s3, art, i + 1, hnew)
+RECURSIVE T3Cleanup(_, _, _)
+T3Cleanup(s, art, i) ==
+  IF ~OK(s) \/ i > Len(art) THEN s
+  ELSE T3Cleanup(IF Len(s.V[art[i]].oe) = 0 THEN DelVertex(s, art[i]) ELSE s, art, i + 1)
+T3Transition(s, art, hnew) ==
+  IF ~OK(s) THEN s ELSE
+  LET sp   == SumPos(s, art, 1)
+      n    == Len(art)
+      ids  == IdsInDict(s)
+      nid  == MaxOf(ids) + 1                                                 \* get_new_vid
+      s1   == AddVertex(s, hnew, nid, <<FloorDiv(sp[1], n), FloorDiv(sp[2], n)>>)
+  IN  T3Cleanup(T3Vertices(s1, art, 1, hnew), art, 1)
+
+\* "triangles in the middle": two interfaces between the same two junctions, the listed one with at most
+\* 3 points: its interior vertex is merged into its first end (replace_vertex in its cells, LIVE deletion
+\* of its edges, removal from the dict).  Detection transcribed from create_lattice.
+TriangleRemoval(s) ==
+  IF ~OK(s) THEN s ELSE
+  LET m    == AbstractOf(s)
+      bed0 == ImplInterfaces(m)
+      bed  == [i \in DOMAIN bed0 |-> [j \in DOMAIN bed0[i] |-> m.hs[bed0[i][j]]]]
+      n    == Len(bed)
+      fl   == [i \in 1..(2 * n) |-> IF i <= n THEN <<bed[i][1], bed[i][Len(bed[i])]>>
+                                    ELSE <<bed[i - n][Len(bed[i - n])], bed[i - n][1]>>]
+      cnt(pr)   == Cardinality({i \in DOMAIN fl : fl[i] = pr})
+      first(pr) == CHOOSE i \in DOMAIN fl : fl[i] = pr /\ \A j \in 1..(i - 1) : fl[j] # pr
+      \* keys of Counter(first_last) with count > 1, in order of first occurrence
+      keysI == SeqOfSetSorted({i \in DOMAIN fl : first(fl[i]) = i /\ cnt(fl[i]) > 1})
+      inner == [k \in DOMAIN keysI |-> fl[keysI[k]]]
+      RECURSIVE Loop(_, _, _)
+      Loop(st, idx, visited) ==
+        IF ~OK(st) \/ idx > Len(inner) - 1 THEN st
+        ELSE LET pr == inner[idx] IN
+             IF pr \in visited \/ <<pr[2], pr[1]>> \in visited THEN Loop(st, idx + 1, visited)
+             ELSE LET e0 == bed[((first(pr) - 1) % n) + 1]
+                      e1 == bed[((first(inner[idx + 1]) - 1) % n) + 1]
+                  IN  IF Len(e0) > 3 THEN Loop(st, idx + 1, visited)
+                      ELSE LET diff == {st.V[x].id : x \in R(e0)} \ {st.V[x].id : x \in R(e1)}
+                           IN  IF diff = {} THEN Fail(st, "IndexError")
+                               ELSE LET did  == CHOOSE x \in diff : \A y \in diff : x <= y     \* np.setdiff1d(...)[0]
+                                        vdel == Lookup(st, did)
+                                        keep == Lookup(st, st.V[e0[1]].id)
+                                    IN  IF vdel = 0 \/ keep = 0 THEN Fail(st, "KeyError")
+                                        ELSE LET s1 == FoldCellReplace(st, st.V[vdel].oc, 1, vdel, keep)
+                                                 s2 == LiveDelEdges(s1, vdel, 1)
+                                                 s3 == DelVertex(s2, vdel)
+                                             IN  Loop(s3, idx + 1, visited \cup {pr})
+  IN  Loop(s, 1, {})
+
 (****************************** generate_mesh ******************************)
 \* nEdge = [e[int(len(e) / ne * i)] for i in range(ne)] + [e[-1]]  when len(e) > ne
 \* (TLC computes floor(len * i / ne); the finitely many (len, ne, i) where IEEE rounding of
